@@ -114,7 +114,7 @@ func (v *vc) execCall(fr *frame, st *state, instr ssa.Instruction, c *ssa.CallCo
 	if fr.top && fr.fc != nil {
 		for _, cl := range fr.fc.callRequires[site] {
 			se := v.newSpecEnv(fr, st, instr.Block())
-			v.oblige(st, "typestate", cl.label, site, se.evalBool(cl.expr), cl.props)
+			v.oblige(st, "typestate", cl.label, site, se.evalGoal(cl.expr), cl.props)
 		}
 	}
 	if b, ok := c.Value.(*ssa.Builtin); ok {
